@@ -55,8 +55,9 @@ def riff_ok(b: bytes):
     return None
 
 
-def build_real(g, srcs):
-    """g: dict(rate, channels, width, note, semi, cents, loops); srcs as in fam_trans."""
+def build_real(g, srcs, stale: bool = False):
+    """g: dict(rate, channels, width, note, semi, cents, loops); srcs as in fam_trans.
+    stale: a longer file already sits at the destination path (S191: `export` into a directory that holds an earlier export)."""
     from smpl_extract.data_streams import DataStream
     from smpl_extract.generalized.sample import ChannelConfig, LoopRegion, LoopType, Sample
     from smpl_extract.generalized.wav import WavSampleBuilder
@@ -80,6 +81,9 @@ def build_real(g, srcs):
     try:
         if os.path.exists(path):
             os.remove(path)
+        if stale:
+            with open(path, "wb") as f:
+                f.write(b"RIFF" + b"\xaa" * (sum(len(d) for (_, _, _, _, d) in srcs) + 4096))
         export_wav(s, path)
         with open(path, "rb") as f:
             data = f.read()
@@ -186,7 +190,9 @@ def run(ctx, rep: Report, deep: bool = False):
     real_files = []
     for i in range(ctx.n(300, 5000)):
         g, srcs = gen_sample(rng)
-        data, err = build_real(g, srcs)
+        data, err = build_real(g, srcs, stale=(i % 3 == 1))
+        if i % 3 == 1:
+            rep.feat("written_over_a_longer_file")
         if data is None:
             res = err
             rep.feat("builds_raising")
@@ -221,7 +227,7 @@ def run(ctx, rep: Report, deep: bool = False):
             if o != "1":
                 rep.findings.append(Finding("riff-lean-validator-rejects", {"file_head": d[:200].hex(), "len": len(d)}))
         rep.feat("real_files_checked_by_lean_validator", len(real_files))
-    rep.required_features = ["period_sweep", "pitch_sweep", "files_built", "files_with_loops", "split_stereo_files"]
+    rep.required_features = ["period_sweep", "pitch_sweep", "files_built", "files_with_loops", "split_stereo_files", "written_over_a_longer_file"]
 
 
 def search(ctx, rep: Report):
